@@ -287,11 +287,18 @@ func checkC19(c *Ctx) {
 		depthsV := []int{}
 		vreqs := []Req{}
 		for _, d := range dvs {
-			for _, kind := range []string{"list", "dict"} {
-				doc := "{\"a\":" + strings.Repeat("[", d.base) + "1" + strings.Repeat("]", d.base) + "}"
+			for _, kind := range []string{"list", "dict", "list-empty-innermost", "dict-empty-innermost", "list-empty-dict-innermost"} {
+				inner := "1"
+				switch kind {
+				case "list-empty-innermost":
+					inner = ""
+				case "dict-empty-innermost", "list-empty-dict-innermost":
+					inner = "{}"
+				}
+				doc := "{\"a\":" + strings.Repeat("[", d.base) + inner + strings.Repeat("]", d.base) + "}"
 				open, close := strings.Repeat("【", d.wraps), strings.Repeat("】", d.wraps)
-				if kind == "dict" {
-					doc = strings.Repeat("{\"a\":", d.base) + "1" + strings.Repeat("}", d.base)
+				if kind == "dict" || kind == "dict-empty-innermost" {
+					doc = strings.Repeat("{\"a\":", d.base) + inner + strings.Repeat("}", d.base)
 					open, close = strings.Repeat("【“k” = ", d.wraps), strings.Repeat("】", d.wraps)
 				}
 				src := "导入《@JSON》\n输入文\n" +
@@ -308,7 +315,7 @@ func checkC19(c *Ctx) {
 		}
 		c.runBatches(vreqs, 2, func(i int, req *Req, resp *Resp) {
 			c.Eval()
-			d := depthsV[i/2]
+			d := depthsV[i/5]
 			c.Count("deep_values_round_tripped", 1)
 			out := resp.Kind
 			if resp.Kind == "value" && resp.Val != nil {
@@ -323,7 +330,7 @@ func checkC19(c *Ctx) {
 			}
 			ok := resp.Kind == "value" && resp.Val != nil && ((resp.Val.T == "bool" && resp.Val.B) || (resp.Val.T == "text" && resp.Val.S() == "generation-refused"))
 			if !ok {
-				c.Violation(fmt.Sprintf("deep-value:%d:%d", d, i%2), fmt.Sprintf("a dictionary holding a value nested %d deep: 生成JSON then 解析JSON -> %s %s (the text one of them produces must be read back by the other, or generation must refuse it)", d, resp.Kind, clip(resp.Outcome(), 120)), map[string]interface{}{"req": req})
+				c.Violation(fmt.Sprintf("deep-value:%d:%d", d, i%5), fmt.Sprintf("a dictionary holding a value nested %d deep: 生成JSON then 解析JSON -> %s %s (the text one of them produces must be read back by the other, or generation must refuse it)", d, resp.Kind, clip(resp.Outcome(), 120)), map[string]interface{}{"req": req})
 			}
 		})
 	}
